@@ -86,7 +86,9 @@ CLAIMED.update({
               "differ only in port or credentials). $variable evaluation (Model/Vars.lean: string.Template as a character automaton, in-place "
               "rounds, 16-round limit): C17_vars_resolved, C17_vars_keys, C17_vars_literal_kept, C17_vars_idempotent, C17_vars_direct and "
               "C17_vars_direct_order (a setting whose references name $-free settings gets its one-step substitution, whatever the table "
-              "order) are proved; the model is compared with Config._substitute_variables on the table the real parser built (final table or "
+              "order), C17_vars_forward and C17_vars_forward_late_bound (a forward-ordered table - every reference names a setting further up "
+              "or a $-free one, as in the shipped defaults, any chain depth - evaluates to its top-to-bottom evaluation, whose values are the "
+              "templates as written substituted against the final table) are proved; the model is compared with Config._substitute_variables on the table the real parser built (final table or "
               "error kind), on a directed corpus and random tables."),
         note="Models the code after fixes d7a84c6 and 3fed5fe; the original aliasing is refuted by C17_legacy_alias_counterexample. For references nested two deep the evaluation can depend on the order of the set lines (C17_vars_order_quirk, replayed on the implementation; DESIGN part I section D, observation). Trusted: Lean kernel, model, harness.",
         design="6/C17"),
